@@ -56,6 +56,7 @@ func Analyze(items []*Item, blocks []*Block) *Analysis { return AnalyzeOpts(item
 func AnalyzeOpts(items []*Item, blocks []*Block, ignoreUnknown bool) *Analysis {
 	a := &Analysis{Items: items, Blocks: blocks, Ix: BuildIndex(blocks), Occ: map[string][]Occurrence{}, Owner: map[string]int{}, Expected: map[int]map[string]int{}}
 	sidOwner := map[string]int{}
+	sidOwners := map[string][]int{} // a stream pushed by several requests at once (twins): each owns the samples it submitted
 	spanOwner := map[string]int{}
 	spanByID := map[string]*gen.Span{}
 	ridOwner := map[string]int{}
@@ -66,6 +67,9 @@ func AnalyzeOpts(items []*Item, blocks []*Block, ignoreUnknown bool) *Analysis {
 		}
 		for _, e := range it.Req.Expect {
 			sidOwner[e.SID] = i
+			if os := sidOwners[e.SID]; len(os) == 0 || os[len(os)-1] != i {
+				sidOwners[e.SID] = append(os, i)
+			}
 			k := "spl|" + ExpKey(e)
 			a.Expected[i][k]++
 			a.Owner[k] = i
@@ -128,6 +132,11 @@ func AnalyzeOpts(items []*Item, blocks []*Block, ignoreUnknown bool) *Analysis {
 				owner, known := sidOwner[sid]
 				if !known {
 					owner = -1
+				}
+				for _, o := range sidOwners[sid] {
+					if a.Expected[o][k] > 0 {
+						owner = o // the request of this stream that submitted the row
+					}
 				}
 				add(k, owner, i)
 				if torn || !known || a.Expected[owner][k] == 0 {
